@@ -930,6 +930,8 @@ def load_from_long_to_dataframe(full_file_path_and_name, separator=","):
         )
 
     data = from_long_to_nested(data)
+    # integer dimension ids 0, 1, ... -> default column names var_0, var_1, ...
+    data.columns = [f"var_{dim_id}" for dim_id in data.columns]
     return data
 
 
